@@ -47,13 +47,18 @@ def world_description(tier):
     return (
         f"unary: disjoint layouts N={w['N']} k<={w['k']}, +empty/+overlap layouts N={w['N_over']} k<=3, both strands, "
         f"3 parent kinds; pairs: all ordered pairs of disjoint(+empty k<=2) layouts N={w['N_pairs']} k<={w['k_pairs']} "
-        f"x strands x optimize_blocks; wrappers: FeatureInterval on disjoint layouts N={w['N_feat']} k<=3"
+        f"x strands x optimize_blocks; wrappers: FeatureInterval on disjoint layouts N={w['N_feat']} k<=3; scale family: "
+        f"{len(list(worlds.scale_layouts(tier)))} layouts with k in {worlds.SCALE_K[tier]} blocks (lengths/gaps cycling through "
+        f"{3 if tier == 'quick' else 5}x{3 if tier == 'quick' else 5} patterns, every phase) x strands x parent kinds: every "
+        f"position, every sub-interval with both ends within 1 of a block boundary (k<=8) / on a block boundary (k>8); the same "
+        f"layouts (k<=6) at offsets {worlds.BIG_OFFSETS} on sequence-less parents; single-interval and shifted-twin queries "
+        f"against every scale layout for the relative-location form"
     )
 
 
 def shards(tier, seed):
     out = []
-    for part in ("unary", "pairs", "feat"):
+    for part in ("unary", "pairs", "feat", "scale"):
         for i in range(NSHARD):
             out.append({"tier": tier, "part": part, "i": i})
     return out
@@ -127,6 +132,20 @@ def run_shard(shard):
                 continue
             for strand in "+-":
                 check_feature_wrappers(res, N, bl, strand)
+    elif part == "scale":
+        for idx, (k, bl) in enumerate(worlds.scale_layouts(tier)):
+            if idx % NSHARD != i:
+                continue
+            N = bl[-1][1] + 2
+            for strand in "+-":
+                for pk in ("none", "seq"):
+                    check_unary(res, "scale", N, bl, strand, pk)
+                check_scale_pairs(res, N, bl, strand)
+            if k <= 6:
+                for off in worlds.BIG_OFFSETS:
+                    sh = tuple((s + off, e + off) for s, e in bl)
+                    for strand in "+-":
+                        check_unary(res, "scale-big", sh[-1][1] + 2, sh, strand, "id")
     return res
 
 
@@ -137,13 +156,19 @@ def _case(kind, **kw):
 
 
 def build(mode, N, bl, strand, pk):
-    par = _parents(N)[pk]
+    if pk == "seq":
+        par = lib.seq_parent(worlds.designed_genome(N, GENOME))
+    elif pk == "id":
+        par = Parent(id="chrV", sequence_type="chromosome")
+    else:
+        par = None
     return lib.mk_loc(bl, strand, par)
 
 
 def check_unary(res, mode, N, bl, strand, pk, only=None):
     """all unary questions on one location; `only` restricts to one op for replay"""
     base = dict(mode=mode, N=N, blocks=[list(b) for b in bl], strand=strand, parent=pk)
+    scale = mode.startswith("scale")
     L = build(mode, N, bl, strand, pk)
     sorted_bl = M.sort_blocks(bl, strand)
     res.state(("loc", sorted_bl, strand, pk))
@@ -183,7 +208,7 @@ def check_unary(res, mode, N, bl, strand, pk, only=None):
     Pref = P_impl if (p_ok and P_impl in adm) else adm[0]
     # ---- item 2: parent -> relative -------------------------------------------------------------
     Sset = set(Pref)
-    for p in range(-1, N + 2):
+    for p in (range(-1, N + 2) if not scale else range(bl[0][0] - 2, bl[-1][1] + 3)):
         o = lib.outcome(L.parent_to_relative_pos, p)
         res.trans()
         if p in Sset:
@@ -201,8 +226,12 @@ def check_unary(res, mode, N, bl, strand, pk, only=None):
             res.nontriv(("p2r", sorted_bl, strand, p))
     # ---- item 3: relative interval -> parent location ---------------------------------------------
     exp_parent = lib.parent_chain(L.parent)
-    for a in range(-1, ln + 2):
-        for b in range(-1, ln + 2):
+    ab = range(-1, ln + 2)
+    if scale:
+        # larger layouts: both ends within 1 of a block boundary (k <= 8) or on a block boundary (k > 8), plus malformed
+        ab = [-1] + worlds.boundary_points(bl, around=1 if len(bl) <= 8 else 0) + [ln + 1]
+    for a in ab:
+        for b in ab:
             for rho in "+-":
                 o = lib.outcome(L.relative_interval_to_parent_location, a, b, lib.STRAND[rho])
                 res.trans()
@@ -269,7 +298,7 @@ def check_unary(res, mode, N, bl, strand, pk, only=None):
             res.deviation("reverse_strand", _case("unary", op="revstrand", **base), O, list(reversed(Pref)), sig="reverse_strand-order")
     o = lib.outcome(L.reverse)
     res.trans()
-    if o[0] == "ok" and mode == "disjoint":
+    if o[0] == "ok" and (mode == "disjoint" or scale):
         # reverse() reflects the blocks about the span and flips the strand: relative structure is preserved
         R = o[1]
         lo, hi = min(s for s, e in bl), max(e for s, e in bl)
@@ -368,6 +397,23 @@ def check_pair(res, N, b1, s1, b2, s2, pk="none"):
                 res.deviation("location_relative_to", case, lib.canon_loc(R), "normalised", sig="lrt-not-normalised")
             else:
                 res.state(("rel", rb, lib.loc_strand(R)))
+
+
+def check_scale_pairs(res, N, bl, strand):
+    """relative-location form on the scale family: the reference L is a many-block layout; queries are every single
+    interval whose ends lie within 1 of a block boundary of L (parent coordinates), and L's own layout shifted by 1"""
+    if len(bl) > 6:
+        pts = sorted({c for s, e in bl for c in (s, e)})
+    else:
+        pts = sorted({c + d for s, e in bl for c in (s, e) for d in (-1, 0, 1) if c + d >= 0})
+    for qi, qs in enumerate(pts):
+        for qe in pts[qi + 1 :]:
+            for s2 in "+-":
+                check_pair(res, N, bl, strand, ((qs, qe),), s2)
+    sh = tuple((s + 1, e + 1) for s, e in bl)
+    for s2 in "+-":
+        check_pair(res, N, bl, strand, sh, s2)
+        check_pair(res, N, sh, s2, bl, strand)
 
 
 def check_pair_parents(res, N):
